@@ -4,7 +4,7 @@ V6 bounded table index   V8 errors recorded in the manager   V9 guard catalogue 
 V7 direct-API null discipline (contradiction rule)"""
 import json, os, re
 from .. import cf, guards
-from . import shared
+from . import shared, validation
 
 VALIDATORS = ('is_job_invalid', 'is_job_invalid_light')
 DATA = os.path.join(os.path.dirname(os.path.dirname(os.path.abspath(__file__))), 'data')
@@ -159,9 +159,13 @@ def run_v3(chk, P):
     r = chk.rule('V3', 'validators are pure: no store except to locals, no call except imb_set_errno/bswap, job stays const',
                  floor=100)
     for tu in validator_tus(P)[:1] + [t for t in P.tus() if P.has(t, 'is_job_invalid_light') and not P.has(t, 'is_job_invalid')][:1]:
-        for fn in VALIDATORS:
-            if not P.has(tu, fn):
+        todo = [(fn, fn) for fn in VALIDATORS]
+        done = set()
+        while todo:
+            fn, root = todo.pop(0)
+            if fn in done or not P.has(tu, fn):
                 continue
+            done.add(fn)
             f = P.func(tu, fn)
             for p in f.params:
                 if 'IMB_JOB' in p['type']:
@@ -178,8 +182,13 @@ def run_v3(chk, P):
                             'validator %s stores to %s' % (fn, cf.render(ev['lhs'])))
                 elif ev['k'] == 'call':
                     c = ev['e'].get('fn')
-                    r.check(c in PURE_CALLEES, '%s:call %s@%s' % (fn, c, loc.split(':')[-1]), loc,
-                            'validator %s calls %s' % (fn, c or cf.render(ev['e'].get('callee'))))
+                    if c and c not in PURE_CALLEES and P.has(tu, c) and len(done) < 40:
+                        # a helper of the validator (checks factored out): it must be pure itself
+                        todo.append((c, root))
+                        r.ok('%s:helper %s' % (fn, c))
+                    else:
+                        r.check(c in PURE_CALLEES, '%s:call %s@%s' % (fn, c, loc.split(':')[-1]), loc,
+                                'validator %s calls %s' % (fn, c or cf.render(ev['e'].get('callee'))))
                     for a in ev['e'].get('a', []):
                         for n in cf.walk(a):
                             if n.get('k') == 'cast' and 'const' in n.get('from', '') and 'const' not in n.get('ty', '') and '*' in n.get('ty', ''):
@@ -211,7 +220,7 @@ def _validator_sites(f):
 
 def run_v4(chk, P):
     r = chk.rule('V4', 'with checking on, a rejected job reaches no processing call and nothing but status/error is stored; '
-                       'the validation loop covers exactly the jobs that are then processed', floor=15)
+                       'the validation loop covers exactly the jobs that are then processed', floor=400)
     tu = validator_tus(P)
     if not tu:
         chk.broken('no TU defines is_job_invalid')
@@ -219,13 +228,17 @@ def run_v4(chk, P):
     nfun = 0
     for t in tu:
         for f in P.funcs(t):
-            sites = _validator_sites(f)
+            sites = validation.sites_of(P, t, f)
             if not sites or f.name in VALIDATORS:
                 continue
+            if validation.wrapper_info(P, t, f.name):
+                is_wrapper = True   # validates only: the rules about processing apply to its callers
+            else:
+                is_wrapper = False
             nfun += 1
             env = {'run_check': 1} if f.param_index('run_check') is not None else {}
             dom = f.dominators_env(env)
-            for tb, fail, ok, call in sites:
+            for tb, fail, ok, call, wrapf in sites:
                 key = '%s:%s' % (t.split('__')[0], f.name)
                 # (a) from the failing edge: no processing call, only status / jobs[0] stores
                 reach = f.reachable(fail, env, stop=lambda b: b == f.exit)
@@ -263,6 +276,23 @@ def run_v4(chk, P):
                     lambda ev: ev['k'] == 'return')
                 if call.get('fn') == 'is_job_invalid_light':
                     okk = True  # session query: nothing is handed back
+                if wrapf is not None:
+                    okk = True  # the wrapper marks the rejected job (checked on the wrapper itself)
+                    # the wrapper validates the caller's whole job array: array and count are handed through unchanged
+                    pn = {p['name'] for p in f.params}
+                    wcall = None
+                    for ev in f.blocks[tb]['ev']:
+                        if ev['k'] == 'call' and ev['e'].get('fn') == wrapf.name:
+                            wcall = ev['e']
+                    c_ = cf.strip_casts(f.blocks[tb]['term'].get('cond'))
+                    if wcall is None:
+                        wcall = c_ if c_.get('k') == 'call' else cf.strip_casts(c_.get('e'))
+                    for i_, p_ in enumerate(wrapf.params):
+                        if ('IMB_JOB' in p_['type'] or p_['name'].startswith('n_')) and i_ < len(wcall.get('a', [])):
+                            a_ = cf.strip_casts(wcall['a'][i_])
+                            r.check(a_.get('k') == 'ref' and a_.get('n') in pn, key + ':pass-through:' + p_['name'], f.loc,
+                                    '%s hands `%s` to %s as %s: the wrapper no longer validates the jobs that are processed' % (
+                                        f.name, cf.render(a_), wrapf.name, p_['name']))
                 r.check(okk, key + ':status', f.loc, '%s: a rejected job can be handed back without IMB_STATUS_INVALID_ARGS' % f.name)
                 # (b) every processing call is dominated by the validation (the test block, or its enclosing loop head)
                 head = _enclosing_loop_head(f, tb, dom)
@@ -278,6 +308,9 @@ def run_v4(chk, P):
                     # loop must start at 0
                     init_ok = _loop_starts_at_zero(f, head, m.group(1) if m else None)
                     r.check(init_ok, key + ':loop-init', t_['loc'], '%s: validation loop does not start at job 0' % f.name)
+                if is_wrapper:
+                    r.ok(key + ':wrapper', 'validation wrapper')
+                    continue
                 allr = f.reachable(None, env)
                 nproc = 0
                 for b in allr:
@@ -406,7 +439,8 @@ def guard_tuples(P, tu, f, cat=None):
         for k, v in P.enum_types.get(en, {}).items():
             inv.setdefault(en, {})[v] = k
     out = set()
-    cat = guards.catalogue(f) if cat is None else cat
+    # names of locals are not facts of the tree: single-definition locals are replaced by their initialisers, others by their type
+    cat = guards.catalogue(f, abstract=True) if cat is None else cat
     for g in cat:
         ctxs = []
         if g['cases']:
@@ -453,6 +487,12 @@ def run_v9(chk, P):
             r.note('TU %s of the baseline is not built now' % tu)
             continue
         have = cur.get((tu, fn), set())
+        if not P.has(tu, fn):
+            # the function was renamed or merged into another one: its guards may live in a function the baseline does not know
+            have = set()
+            for (tu2, fn2), tups in cur.items():
+                if tu2 == tu and ('%s::%s' % (tu2, fn2)) not in base['functions']:
+                    have |= tups
         for tjs in tl:
             sexpr, name, cond, ctx, err = json.loads(tjs)
             ik = '%s:%s[%s=%s] %s -> %s' % (tu.split('__')[0], fn, sexpr, name, cond, err.replace('IMB_ERR_', ''))
